@@ -268,7 +268,7 @@ class Frame:
                     if all_exit and ex:
                         env_t, heap_t = env_h, heap_h
                     else:
-                        env_t, heap_t = self.merge(c, env_h, env_t), self.merge(c, heap_h, heap_t)
+                        env_t, heap_t = self.merge(c, env_h, env_t), self.merge(c, heap_h, heap_t, heap=True)
                     all_exit = False
             self.restore(env_t, heap_t)
             return all_exit
@@ -306,7 +306,7 @@ class Frame:
             self.pathcond.append(c)
             return False
         # merge
-        self.restore(self.merge(c, env_t, env_e), self.merge(c, heap_t, heap_e))
+        self.restore(self.merge(c, env_t, env_e), self.merge(c, heap_t, heap_e, heap=True))
         return False
 
     def switch(self, n):
@@ -381,7 +381,7 @@ class Frame:
         for cond, (e2, h2) in reversed(live[:-1]):
             if cond is None:
                 continue
-            env, heap = self.merge(cond, e2, env), self.merge(cond, h2, heap)
+            env, heap = self.merge(cond, e2, env), self.merge(cond, h2, heap, heap=True)
         self.restore(env, heap)
         return False
 
@@ -392,10 +392,21 @@ class Frame:
     def restore(self, env, heap):
         self.env, self.heap = env, heap
 
-    def merge(self, c, a, b):
+    def heap_default(self, k):
+        """value of a heap location that was not written: the field itself"""
+        if isinstance(k, str):
+            return ("field", self.this, k)
+        return k
+
+    def merge(self, c, a, b, heap=False):
         out = {}
         for k in set(a) | set(b):
             va, vb = a.get(k), b.get(k)
+            if heap:
+                if va is None:
+                    va = self.heap_default(k)
+                if vb is None:
+                    vb = self.heap_default(k)
             if isinstance(va, StructVal) or isinstance(vb, StructVal):
                 if isinstance(va, StructVal) and isinstance(vb, StructVal):
                     m = StructVal(va.name, va.tname)
